@@ -42,7 +42,7 @@ MCInit ==
   /\ cgca = "gca" /\ cid = 1 /\ mutex = "free" /\ rnd = Idle /\ rounds = 0
 
 Step(A) == A /\ UNCHANGED <<cvars, rounds>>
-Active == IF Conc = 1 THEN {"r1"} ELSE RoundIds
+Active == IF Conc = 1 THEN {"r1"} ELSE {"r1", "r2"}
 MCNext ==
   \/ \E x \in Active : (rounds < MaxRounds /\ rounds' = rounds + 1 /\ RoundBegin(x) /\ UNCHANGED cvars)
   \/ \E x \in Active : \E k \in Keys \cup {"s4", "n1", "n2"} :
